@@ -975,7 +975,33 @@ func ruleNoPanicPath(c *Ctx) {
 		for _, s := range sites {
 			key := s.fn + "/" + s.kind + "/" + s.detail
 			_, audited := auditedPanicSites[key]
+			if !audited && s.kind == "panic" && c.ownedByMustAPI(f) {
+				// the panic of the documented Must* API, moved into an unexported helper that only Must* functions call
+				audited = true
+			}
 			c.ob(rule, key, s.pos, audited, "panic-capable construct reachable from an Expand*/Resolve* entry point that is not in the audited table")
 		}
 	}
+}
+
+// ownedByMustAPI: an unexported function whose every package caller is an exported Must* function.
+func (c *Ctx) ownedByMustAPI(self *types.Func) bool {
+	if self.Exported() {
+		return strings.HasPrefix(self.Name(), "Must")
+	}
+	n, ok := 0, true
+	for _, g := range c.pkgFuncs() {
+		if g == self {
+			continue
+		}
+		for _, h := range c.staticCallees(g) {
+			if h == self {
+				n++
+				if !(g.Exported() && strings.HasPrefix(g.Name(), "Must")) {
+					ok = false
+				}
+			}
+		}
+	}
+	return ok && n > 0
 }
